@@ -492,9 +492,14 @@ def _apply_decorators(tree: ast.Module) -> ast.Module:
     used: dict = {}
 
     def rewrite(fdef, in_class: bool):
-        if len(fdef.decorator_list) != 1:
+        # the decorator applied FIRST (written last); outer property / cached_property decorators stay on the rewritten function:
+        # cached_property(deco(f)) is cached_property(<the wrapper deco returns>)
+        if not fdef.decorator_list:
             return None
-        d = fdef.decorator_list[0]
+        outer = fdef.decorator_list[:-1]
+        if any(ast.unparse(o).split(".")[-1] not in ("property", "cached_property") for o in outer):
+            return None
+        d = fdef.decorator_list[-1]
         fargs = []
         if isinstance(d, ast.Call) and isinstance(d.func, ast.Name) and not d.keywords and all(isinstance(x, ast.Constant) for x in d.args):
             dname, fargs = d.func.id, list(d.args)
@@ -536,12 +541,12 @@ def _apply_decorators(tree: ast.Module) -> ast.Module:
                 c.args = [ast.Name(id=nm, ctx=ast.Load()) for nm in names]
                 c.keywords = []
             first = names[0] if names else None
-        elif wa.vararg and wa.kwarg and wa.args and not wa.kwonlyargs and not wa.posonlyargs and not wa.defaults:
+        elif wa.vararg and wa.kwarg and (wa.args or wa.posonlyargs) and not wa.kwonlyargs and not wa.defaults:
             # (p1, .., pk, *args, **kwargs) calling fn(p1, .., pk, *args, **kwargs): the wrapper names the leading parameters it
             # uses itself; the rest of the decorated function's own parameters stand where *args / **kwargs were
-            if oa.vararg or oa.kwarg or oa.kwonlyargs or oa.posonlyargs:
+            if oa.posonlyargs:
                 return None
-            pre = [x.arg for x in wa.args]
+            pre = [x.arg for x in wa.posonlyargs + wa.args]  # (`self, /`: positional-only in the wrapper, a plain parameter of the function)
             names = [x.arg for x in oa.args]
             if names[:len(pre)] != pre:
                 return None
@@ -552,12 +557,14 @@ def _apply_decorators(tree: ast.Module) -> ast.Module:
                     return None
             if any(isinstance(n, ast.Name) and n.id in (wa.vararg.arg, wa.kwarg.arg) and not any(n is c.args[-1].value or n is c.keywords[0].value for c in calls) for n in ast.walk(w2)):
                 return None
-            if any(isinstance(n, ast.Name) and isinstance(n.ctx, ast.Store) and n.id in names[len(pre):] for n in ast.walk(w2)):
+            own_rest = names[len(pre):] + [x.arg for x in oa.kwonlyargs] + ([oa.vararg.arg] if oa.vararg else []) + ([oa.kwarg.arg] if oa.kwarg else [])
+            if any(isinstance(n, ast.Name) and isinstance(n.ctx, ast.Store) and n.id in own_rest for n in ast.walk(w2)):
                 return None  # a local of the wrapper would collide with a parameter that takes the place of *args
             w2.args = copy.deepcopy(oa)
             for c in calls:
-                c.args = [ast.Name(id=nm, ctx=ast.Load()) for nm in names]
-                c.keywords = []
+                # the function's own parameters are handed on one by one; its own *rest / **extra as they are
+                c.args = [ast.Name(id=nm, ctx=ast.Load()) for nm in names] + ([ast.Starred(value=ast.Name(id=oa.vararg.arg, ctx=ast.Load()), ctx=ast.Load())] if oa.vararg else [])
+                c.keywords = [ast.keyword(arg=x.arg, value=ast.Name(id=x.arg, ctx=ast.Load())) for x in oa.kwonlyargs] + ([ast.keyword(arg=None, value=ast.Name(id=oa.kwarg.arg, ctx=ast.Load()))] if oa.kwarg else [])
             first = names[0] if names else None
         else:
             first = wa.args[0].arg if wa.args else None
@@ -613,7 +620,7 @@ def _apply_decorators(tree: ast.Module) -> ast.Module:
                     return n
             w2 = Fold().visit(w2)
         w2.name = fdef.name
-        w2.decorator_list = []
+        w2.decorator_list = [copy.deepcopy(o) for o in outer]
         w2.returns = fdef.returns
         if not isinstance(w2.body[0], ast.Expr) or not isinstance(getattr(w2.body[0], "value", None), ast.Constant):
             doc = ast.get_docstring(fdef, clean=False)
